@@ -41,13 +41,61 @@ Section C10.
     rewrite (H j b Hj E (candidate block spec a2 backend b)) by (right; right; reflexivity).
     rewrite Hb. reflexivity.
   Qed.
+  (* a block whose search or rebuild raises (after a successful analysis) is emitted unchanged:
+     the try/except around optimize_asm_block_asm_format_unprotected *)
+  Theorem backend_failure_kept : forall (analysis : block -> res spec) b s,
+    analysis b = Ok s -> backend b s = Raise -> process block spec analysis backend verify b = b.
+  Proof.
+    intros analysis b s Ha Hb. unfold process, candidate. rewrite Ha, Hb.
+    destruct (compare block spec analysis verify b b); reflexivity.
+  Qed.
+
+  (* whatever raises, the emitted block is the input block or a candidate on which the analysis
+     succeeded for both blocks and the tool's checker answered "equal" *)
+  Theorem kept_or_verified : forall (analysis : block -> res spec) b,
+    process block spec analysis backend verify b = b \/
+    exists so sn, analysis b = Ok so /\
+                  analysis (process block spec analysis backend verify b) = Ok sn /\
+                  verify so sn = true.
+  Proof.
+    intros analysis b. unfold process.
+    destruct (compare block spec analysis verify b (candidate block spec analysis backend b)) eqn:E; [|left; reflexivity].
+    right. unfold compare in E.
+    destruct (analysis (candidate block spec analysis backend b)) as [sn|] eqn:En; [|discriminate].
+    destruct (analysis b) as [so|] eqn:Eo; [|discriminate].
+    exists so, sn. repeat split; assumption.
+  Qed.
 End C10.
+
+(* two back ends that agree everywhere except on block k (for instance: one raises there) produce
+   outputs that agree everywhere except at position k *)
+Theorem backend_fault_local : forall (block spec : Type) (analysis : block -> res spec)
+    (b1 b2 : block -> spec -> res block) (verify : spec -> spec -> bool) bs k,
+  (forall j b, j <> k -> nth_error bs j = Some b -> forall s, b1 b s = b2 b s) ->
+  forall j, j <> k ->
+  nth_error (optimize_contract block spec analysis b1 verify bs) j =
+  nth_error (optimize_contract block spec analysis b2 verify bs) j.
+Proof.
+  intros block spec analysis b1 b2 verify bs k H j Hj. unfold optimize_contract. rewrite !nth_error_map.
+  destruct (nth_error bs j) as [b|] eqn:E; [|reflexivity]. cbn [option_map]. f_equal.
+  assert (Hc : candidate block spec analysis b1 b = candidate block spec analysis b2 b).
+  { unfold candidate. destruct (analysis b) as [s|]; [|reflexivity]. rewrite (H j b Hj E s). reflexivity. }
+  unfold process. rewrite Hc. reflexivity.
+Qed.
 Print Assumptions contained.
 Print Assumptions failing_block_kept.
 Print Assumptions fault_local.
+Print Assumptions backend_failure_kept.
+Print Assumptions kept_or_verified.
+Print Assumptions backend_fault_local.
 
 (* non-vacuity: the analysis raises on the second block, the back end on the third *)
 Example fault_example :
   optimize_contract nat nat (fun b => if Nat.eqb b 2 then Raise else Ok (b * 10)) (fun b s => if Nat.eqb b 3 then Raise else Ok (b + s)) (fun a b => true)
     [1; 2; 3; 4] = [11; 2; 3; 44].
 Proof. reflexivity. Qed.
+(* the premises of backend_failure_kept hold at block 3 of that example *)
+Example backend_failure_example :
+  (fun b => if Nat.eqb b 2 then @Raise nat else Ok (b * 10)) 3 = Ok 30 /\
+  (fun b s => if Nat.eqb b 3 then @Raise nat else Ok (b + s)) 3 30 = Raise.
+Proof. split; reflexivity. Qed.
